@@ -470,7 +470,21 @@ func TestMeshNearSurface(t *testing.T) {
 		if a.kindNote != "" {
 			rec.Label("near:box:" + a.kindNote)
 		}
-		ts := render.ToTriangles(a.s, r.mk(cells))
+		// the renderers work from the values at the lattice nodes, and linear interpolation does not change when
+		// all values are multiplied by a constant: k*f has the surface of f. The uniform renderer takes any k
+		// (it is not told that the field is a distance at all); the octree renderer needs a field that never
+		// overestimates, k <= 1.
+		var rs sdf.SDF3 = a.s
+		amp := 1.0
+		if rapid.IntRange(0, 2).Draw(t, "amplified-field") == 0 {
+			amp = rapid.SampledFrom([]float64{3, 10, 0.25, 64, 0.5, 1.5}).Draw(t, "field-factor")
+			if r.name == "octree" && amp > 1 {
+				amp = 1 / amp
+			}
+			rs = lat.Scaled3{S: a.s, K: amp}
+			rec.Label(fmt.Sprintf("near:field-times-%g", amp))
+		}
+		ts := render.ToTriangles(rs, r.mk(cells))
 		h := a.s.BoundingBox().Size().MaxComponent() / float64(cells)
 		diag := math.Sqrt(3) * h
 		scale := a.c.Length() + a.s.BoundingBox().Size().Length()
